@@ -108,7 +108,7 @@ def gen_misuses(rng, n):
     ok_fns = ["pub fn ok%d<D>(d: &D) {}", "pub fn ok%d(d: &impl Sized) -> u8 { 0 }", "pub async fn ok%d<D: Clone>(d: &D, a: u8) -> u8 { a }",
               "pub(crate) fn ok%d<D>(_: &D, (a, b): (u8, u8)) {}", "pub fn ok%d<D>(d: D, a: &str) {}", "fn private%d() {}"]
     ok_impl_fns = ["fn ok%d<D>(d: &D) {}", "fn ok%d(d: &impl Sized) -> u8 { 0 }", "async fn ok%d<D: Clone>(d: &D, a: u8) -> u8 { a }", "pub fn ok%d<D>(d: &D, _: u8) {}"]
-    concrete = ["Concrete", "some::Concrete", "crate::Concrete", "Concrete<u8>", "super::App", "Vec<u8>"]   # (a leading `::` is rejected earlier, with a message of its own)
+    concrete = ["Concrete", "some::Concrete", "crate::Concrete", "Concrete<u8>", "super::App", "Vec<u8>", "::abs::Concrete"]
     self_forms = ["&self", "self", "&mut self", "mut self", "self: Box<Self>", "self: &Self", "&'a self"]
     valid = {"fn": ["export", "?Send", "mock_api = M", "unimock = false", "mockall = false", "debug = false", "no_deps = false"],
              "mod": ["export", "?Send", "mock_api = M", "unimock = false", "mockall = false", "debug = false"],
